@@ -63,6 +63,15 @@ def run(tier):
     chk.cov["replayed_model_transitions"] = stats["transitions"]
     viols, pr = vlib.observe("ObsWsPoolTrace", "ObsWsPoolTrace.cfg", tp)
     chk.add_tlc("P:WsPoolObs over replay", pr)
+    # code -> M: the same trace validated against WsPool.tla itself (every result must be the model's)
+    mr = vlib.tlc("TraceWsPool", "TraceWsPool.cfg", workers=1, timeout=1800, env={"TRACE_FILE": tp}, deadlock=False)
+    if mr.rc != 0:
+        raise vlib.FrameworkError("TraceWsPool did not consume the trace (rc=%d):\n%s" % (mr.rc, mr.out[-2000:]))
+    chk.add_tlc("M-conformance:TraceWsPool over replay", mr)
+    div = mr.printed("MDIV")
+    chk.cov["m_conformance"] = {"trace_lines": mr.distinct - 1, "diverged_segments": len(div), "first": div[:3]}
+    if div:
+        vlib.log("MODEL-DRIFT (not a verdict): %d replayed segments take a step WsPool.tla cannot explain, first: %s" % (len(div), str(div[0])[:500]))
     by_id = {s["id"]: s for s in scripts}
     for s in scripts:
         chk.count_case([s["cf"], s["id"]])
